@@ -79,7 +79,8 @@ def rule(ts, kids, thr, net, D, W, depth):
     testnet/regtest escape: i is the heaviest child, depth(i) >= D and depth(i) - depth(runner-up) >= D, where the
     runner-up is the second child in accumulated difficulty; when several children tie for heaviest / runner-up the
     statement does not say which one is meant: `may` accepts any reading, `must` requires all readings."""
-    T = ts.d[1] * thr
+    from mirsym.interp import sym_mul
+    T = sym_mul(zterm(ts.d[1]), zterm(thr))
     may, must = {}, {}
     for i in kids:
         others = [j for j in kids if j != i]
